@@ -71,6 +71,29 @@ func caseCalls(sw *ast.SwitchStmt) string {
 	return "[" + strings.Join(rows, ", ") + "]"
 }
 
+var nameSwitchCase = map[*ast.CaseClause]bool{}
+
+// callArgs returns the printed arguments (from index `from`) of the first call of `fun` in n.
+func callArgs(n ast.Node, fun string, from int) []string {
+	var out []string
+	found := false
+	if n == nil {
+		return out
+	}
+	ast.Inspect(n, func(x ast.Node) bool {
+		if c, ok := x.(*ast.CallExpr); ok && !found && src(c.Fun) == fun {
+			found = true
+			for i, a := range c.Args {
+				if i >= from {
+					out = append(out, src(a))
+				}
+			}
+		}
+		return !found
+	})
+	return out
+}
+
 func extractGrpc() {
 	f := parse("h2/grpc/grpc.go")
 	g := newGen("Grpc")
@@ -98,14 +121,37 @@ func extractGrpc() {
 	}
 	g.def("encodingNames", "List (String × String)", leanPairs(names))
 
-	// `h.Name == "…"` / `h.Value == "…"` tests of adapter.Header, in source order
+	// the string literals adapter.Header compares header fields with FOR EQUALITY, in source order:
+	// `h.Name == "…"` / `h.Value == "…"`, or the same test written `switch h.Name { case "…": }`
+	// (the `switch h.Value` of the encoding table is encodingNames above). A prefix or
+	// case-insensitive test would not be listed, and the fact would break.
 	var tests [][2]string
 	if hdr != nil {
 		ast.Inspect(hdr, func(n ast.Node) bool {
-			if b, ok := n.(*ast.BinaryExpr); ok && b.Op == token.EQL {
-				if lit, ok := b.Y.(*ast.BasicLit); ok && lit.Kind == token.STRING {
-					if v, err := strconv.Unquote(lit.Value); err == nil {
-						tests = append(tests, [2]string{src(b.X), v})
+			switch x := n.(type) {
+			case *ast.BinaryExpr:
+				if x.Op == token.EQL {
+					if lit, ok := x.Y.(*ast.BasicLit); ok && lit.Kind == token.STRING {
+						if v, err := strconv.Unquote(lit.Value); err == nil {
+							tests = append(tests, [2]string{src(x.X), v})
+						}
+					}
+				}
+			case *ast.CaseClause:
+				// only the cases of a switch on h.Name; ast.Inspect reaches the clause through its switch
+				for _, e := range x.List {
+					if lit, ok := e.(*ast.BasicLit); ok && lit.Kind == token.STRING && nameSwitchCase[x] {
+						if v, err := strconv.Unquote(lit.Value); err == nil {
+							tests = append(tests, [2]string{"h.Name", v})
+						}
+					}
+				}
+			case *ast.SwitchStmt:
+				if x.Tag != nil && src(x.Tag) == "h.Name" {
+					for _, st := range x.Body.List {
+						if cc, ok := st.(*ast.CaseClause); ok {
+							nameSwitchCase[cc] = true
+						}
 					}
 				}
 			}
@@ -128,6 +174,50 @@ func extractGrpc() {
 		})
 	}
 	g.def("prefixLen", "Nat", pl)
+
+	// the 32-bit arithmetic of the length prefix: the type of adapter.length, the ordering comparisons
+	// adapter.Data makes with it (the buffer length is converted to uint32 first), and how the prefix is
+	// read and written (byte order, target / converted value)
+	lt := ""
+	for _, d := range f.Decls {
+		gd, ok := d.(*ast.GenDecl)
+		if !ok {
+			continue
+		}
+		for _, sp := range gd.Specs {
+			ts, ok := sp.(*ast.TypeSpec)
+			if !ok || ts.Name.Name != "adapter" {
+				continue
+			}
+			if st, ok := ts.Type.(*ast.StructType); ok {
+				for _, fl := range st.Fields.List {
+					for _, nm := range fl.Names {
+						if nm.Name == "length" {
+							lt = src(fl.Type)
+						}
+					}
+				}
+			}
+		}
+	}
+	g.def("lengthFieldType", "String", leanStr(lt))
+	var cmps []string
+	if data != nil {
+		ast.Inspect(data, func(n ast.Node) bool {
+			if b, ok := n.(*ast.BinaryExpr); ok {
+				switch b.Op {
+				case token.LSS, token.GTR, token.LEQ, token.GEQ:
+					if strings.Contains(src(b), "a.length") {
+						cmps = append(cmps, src(b))
+					}
+				}
+			}
+			return true
+		})
+	}
+	g.def("lengthCompares", "List String", leanList(cmps))
+	g.def("prefixRead", "List String", leanList(callArgs(data, "binary.Read", 1)))
+	g.def("prefixWrite", "List String", leanList(callArgs(funcDecl(f, "emitter", "Message"), "binary.Write", 1)))
 	g.def("decodeCalls", "List (String × List String)", caseCalls(switchOn(data, "a.encoding")))
 	g.def("encodeCalls", "List (String × List String)", caseCalls(switchOn(funcDecl(f, "emitter", "Message"), "e.adapter.encoding")))
 	var helpers []string
